@@ -371,6 +371,8 @@ def install_update_keys_rule(I):
             t = toc_from_dict(I_, t)
         k = z3.Const("k!uk", BytesS)
         if not st.branch(st.fresh("all_keys_utf8", z3.BoolSort()), "all keys utf-8"):
+            k0 = st.fresh("bad_key", BytesS)
+            st.assume(z3.And(t.has[k0], z3.Not(FM.b_is_utf8(k0))))
             I_.raise_py("UnicodeDecodeError", "invalid utf-8 key")
         st.assume(z3.ForAll([k], z3.Implies(t.has[k], FM.b_is_utf8(k))))
         S = st.fresh("keyset", z3.ArraySort(z3.StringSort(), z3.BoolSort()))
